@@ -201,3 +201,98 @@ Section Current.
   Theorem ufn_shape fs : Forall2 (fun f o => o = f \/ exists k, o = suffixed f k) fs (ufn ren fs).
   Proof. destruct (ufn_go_shape fs [] 0) as (out & E & F). unfold ufn. rewrite E. exact F. Qed.
 End Current.
+
+(** * The repaired body: advance the suffix until the name is unused
+
+    Python:  unique, n = field, i
+             while unique in fields: unique = field + "_" + str(n); n += 1
+    [while_fresh bad mk start i fuel] is that loop with the condition [bad], the candidate [mk n] and at most
+    [fuel] iterations.  With [fuel > length fields] the bound is never reached (pigeonhole: the candidates are
+    pairwise different), which is what [while_fresh_is_fresh] proves. *)
+Definition while_fresh (bad : string -> bool) (mk : nat -> string) (start : string) (i fuel : nat) : string :=
+  if bad start then
+    match find (fun k => negb (bad (mk k))) (seq i fuel) with
+    | Some k => mk k
+    | None => start
+    end
+  else start.
+
+Definition ren_fresh_spec (ren : list string -> nat -> string -> string) : Prop :=
+  forall acc i f, ren acc i f = while_fresh (fun u => mem u acc) (suffixed f) f i (S (List.length acc)).
+
+Lemma suffixed_seq_nodup f i n : NoDup (map (suffixed f) (seq i n)).
+Proof.
+  revert i; induction n as [|n IH]; intro i; simpl; constructor; [|apply IH].
+  intro Hin. apply in_map_iff in Hin. destruct Hin as [k [E Hk]].
+  apply suffixed_inj in E. destruct E as [_ E]. apply in_seq in Hk. lia.
+Qed.
+
+Lemma while_fresh_is_fresh acc i f :
+  ~ In (while_fresh (fun u => mem u acc) (suffixed f) f i (S (List.length acc))) acc.
+Proof.
+  unfold while_fresh. destruct (mem f acc) eqn:Em.
+  - destruct (find _ _) as [k|] eqn:Ef.
+    + apply find_some in Ef. destruct Ef as [_ Hk]. apply negb_true_iff in Hk.
+      intro Hin. apply mem_In in Hin. congruence.
+    + exfalso.
+      assert (Hincl : incl (map (suffixed f) (seq i (S (List.length acc)))) acc).
+      { intros x Hx. apply in_map_iff in Hx. destruct Hx as [k [<- Hk]].
+        pose proof (find_none _ _ Ef k Hk) as Hb. apply negb_false_iff in Hb. apply mem_In; exact Hb. }
+      pose proof (NoDup_incl_length (suffixed_seq_nodup f i (S (List.length acc))) Hincl) as Hlen.
+      rewrite map_length, seq_length in Hlen. lia.
+  - intro Hin. apply mem_In in Hin. congruence.
+Qed.
+
+Section Fresh.
+  Variable ren : list string -> nat -> string -> string.
+  Hypothesis Hren : ren_fresh_spec ren.
+
+  Lemma ren_fresh acc i f : ~ In (ren acc i f) acc.
+  Proof. rewrite Hren. apply while_fresh_is_fresh. Qed.
+
+  (** the header never repeats a name -- for EVERY field list *)
+  Theorem ufn_nodup_total fs : NoDup (ufn ren fs).
+  Proof. apply ufn_nodup_fresh. exact ren_fresh. Qed.
+
+  Lemma ren_keeps acc i f : mem f acc = false -> ren acc i f = f.
+  Proof. intro H. rewrite Hren. unfold while_fresh. rewrite H. reflexivity. Qed.
+
+  Lemma ren_shape acc i f : ren acc i f = f \/ exists k, ren acc i f = suffixed f k.
+  Proof.
+    rewrite Hren. unfold while_fresh. destruct (mem f acc); [|left; reflexivity].
+    destruct (find _ _) as [k|]; [right; exists k; reflexivity | left; reflexivity].
+  Qed.
+
+  Lemma ufn_go_id_f fs : forall acc i, NoDup (acc ++ fs) -> ufn_go ren acc i fs = acc ++ fs.
+  Proof.
+    induction fs as [|f fs IH]; intros acc i Hnd; simpl; [rewrite app_nil_r; reflexivity|].
+    assert (Hn : mem f acc = false).
+    { destruct (mem f acc) eqn:E; [|reflexivity]. apply mem_In in E.
+      apply NoDup_remove_2 in Hnd. exfalso; apply Hnd. apply in_or_app; left; exact E. }
+    rewrite (ren_keeps _ _ _ Hn). rewrite IH; rewrite <- app_assoc; simpl; [reflexivity | exact Hnd].
+  Qed.
+  (** duplicate-free field lists are printed as they are *)
+  Theorem ufn_id_f fs : NoDup fs -> ufn ren fs = fs.
+  Proof. intro H. unfold ufn. rewrite ufn_go_id_f; [reflexivity | exact H]. Qed.
+
+  Lemma ufn_go_shape_f fs : forall acc i,
+    exists out, ufn_go ren acc i fs = acc ++ out /\
+                Forall2 (fun f o => o = f \/ exists k, o = suffixed f k) fs out.
+  Proof.
+    induction fs as [|f fs IH]; intros acc i; simpl.
+    - exists []. rewrite app_nil_r. split; [reflexivity | constructor].
+    - destruct (IH (acc ++ [ren acc i f]) (S i)) as (out & E & F).
+      exists (ren acc i f :: out). split; [rewrite E, <- app_assoc; reflexivity|].
+      constructor; [apply ren_shape | exact F].
+  Qed.
+  (** position by position the header is the column name or that name with an index suffix *)
+  Theorem ufn_shape_f fs : Forall2 (fun f o => o = f \/ exists k, o = suffixed f k) fs (ufn ren fs).
+  Proof. destruct (ufn_go_shape_f fs [] 0) as (out & E & F). unfold ufn. rewrite E. exact F. Qed.
+End Fresh.
+
+Lemma nodupb_complete l : NoDup l -> nodupb l = true.
+Proof.
+  induction 1 as [|x l Hx Hnd IH]; simpl; [reflexivity|].
+  rewrite IH, andb_true_r. apply negb_true_iff.
+  destruct (mem x l) eqn:Em; [|reflexivity]. apply mem_In in Em. contradiction.
+Qed.
